@@ -1,9 +1,9 @@
 (* C09 whole file, part 4: decode (bw_write ...) = Some (content_of ...), both writers. *)
-From BT Require Import Base.Util Base.LE Base.Float Generated.Consts Model.RTree Model.BBIFile Model.BigWigWrite
+From BT Require Import Base.Util Base.LE Base.Float Generated.Consts Model.RTree Model.BBIFile Model.BigWigWrite Model.BigWigWriteZ
   Proofs.Chunks Proofs.BigWigQuery Proofs.RTreeCodec Proofs.FileRegions
   Proofs.BigWigFile Proofs.BigWigFileData Proofs.BigWigFileRoundTrip Proofs.BigWigFileThms
   Proofs.ZoomBwLevels
-  Spec.FormatDecode Proofs.C09Base Proofs.C09Codec Proofs.C09Chrom Proofs.C09RTree Proofs.C09Data Proofs.C09Zoom Proofs.C09File Proofs.C09Levels.
+  Spec.FormatDecode Proofs.C09Base Proofs.C09Codec Proofs.C09Chrom Proofs.C09RTree Proofs.C09Data Proofs.C09Zoom Proofs.C09File Proofs.C09Levels Proofs.C09BufSize.
 From Coq Require Import Sorting.Sorted.
 Local Open Scope N_scope.
 
@@ -13,9 +13,9 @@ Definition level_records (fp : fpmode) (o : opts) (outs : list chrom_out) (size 
   (size, map (zr_view fp) (concat (level_rsecs fp o outs size))).
 
 Definition content_of (fp : fpmode) (o : opts) (sizes : list (name * N)) (ids : idmap) (outs : list chrom_out)
-           (sum : summary) (kept : list N) : content :=
+           (sum : summary) (ubuf : N) (kept : list N) : content :=
   {| c_bigwig := true; c_bigendian := false; c_field_count := 0; c_defined_fc := 0; c_autosql := [];
-     c_ubuf := 0; c_block_size := o_bs o; c_ips := o_ips o;
+     c_ubuf := ubuf; c_block_size := o_bs o; c_ips := o_ips o;
      c_chroms := map (chrom_view sizes) ids;                          (* (name, id, size) in id order *)
      c_records := recs_of outs;                                       (* every value, in input order *)
      c_blocks := map (fun pc : piece => Nlen (snd pc)) (pieces_of (N.to_nat (o_ips o)) outs);
@@ -44,30 +44,35 @@ Proof.
       intros x [<-|Hx]; [now left|right; exact (IH _ _ _ _ _ E x Hx)].
 Qed.
 
-(* both writers: everything follows from [assemble] plus a laid-out zoom part *)
+(* both writers: everything follows from the assembled parts plus a laid-out zoom part *)
 Section FromAssemble.
 Variables (fp : fpmode) (o : opts) (sizes : list (name * N)) (inp : list item).
 Variables (ids : idmap) (outs : list chrom_out) (sum : summary) (data : list sdata).
-Variables (zoom_part : N -> N -> res (list N * list zoom_header)) (bs : list N) (p : file_parts).
+Variables (bs : list N) (p : file_parts).
 Variables (strict : bool) (inflate : N -> N -> option (list N)).
+Variables (compress : list N -> list N) (cz : bool) (ubuf : N).
 Hypothesis Hcol : bw_collect fp o sizes inp = Ok (ids, outs, sum, data).
-Hypothesis HA : assembled o BIGWIG_MAGIC sizes ids sum data bw_pre 0 0 0 zoom_part (fun k => k) bs p.
+Hypothesis HA : zassembled o sizes ids sum (map (zsec compress cz) data) ubuf bs p.
+Hypothesis Hmode : blk_mode cz ubuf.
+Hypothesis Hubuf : ubuf < W32.
+Hypothesis Hcne : forall b, compress b <> [].
+Hypothesis Hinf : cz = true -> inflate_ok compress bs inflate /\ Forall (fun d => Nlen (sd_bytes d) <= ubuf) data.
 Hypothesis Hopts : opts_ok o.
 Hypothesis Hinp : input_ok sizes inp.
 Hypothesis Hsize : Nlen bs < U64.
 Hypothesis Hnames : Forall (fun c : name => c <> []) (map fst (runs inp)).
 Hypothesis Hstrict : strict = true -> names_increasing (map fst (runs inp)).
-Hypothesis Hlaid : laid_out fp (map (chrom_view sizes) ids) bs (Nlen bs) inflate (level_rsecs fp o outs)
-                     (352 + Nlen (data_bytes data) + Nlen (fp_ct p) + Nlen (fp_ix p)) (fp_zbytes p) (fp_zhdrs p).
+Hypothesis Hlaid : laid_out fp (map (chrom_view sizes) ids) bs (Nlen bs) inflate ubuf (level_rsecs fp o outs)
+                     (352 + Nlen (data_bytes (map (zsec compress cz) data)) + Nlen (fp_ct p) + Nlen (fp_ix p)) (fp_zbytes p) (fp_zhdrs p).
 Hypothesis Hcount : Nlen (fp_zhdrs p) <= 10.
 Hypothesis Hlevels : inc_from 0 (map zh_res (fp_zhdrs p)).
 
 Theorem assembled_decodes :
-  decode_gen strict bs inflate = Some (content_of fp o sizes ids outs sum (map zh_res (fp_zhdrs p))).
+  decode_gen strict bs inflate = Some (content_of fp o sizes ids outs sum ubuf (map zh_res (fp_zhdrs p))).
 Proof.
   destruct Hlaid as (zlist & Hdec & Hok & Hch & Hend & Hcont).
-  pose proof (core_Nlen _ _ _ _ _ _ _ _ _ HA) as L.
-  destruct (wf_decode fp o sizes inp ids outs sum data zoom_part bs p strict inflate Hcol HA Hopts Hinp Hsize Hnames Hstrict
+  pose proof (zasm_Nlen _ _ _ _ _ _ _ _ HA) as L.
+  destruct (wf_decode fp o sizes inp ids outs sum data bs p strict inflate compress cz ubuf Hcol HA Hmode Hubuf Hcne Hinf Hopts Hinp Hsize Hnames Hstrict
               zlist Hok Hcount Hlevels Hdec) as (ih & Hd & _).
   - split; [exact Hch|]. lia.
   - rewrite Hd. f_equal. unfold the_content, content_of. f_equal.
@@ -76,40 +81,125 @@ Proof.
 Qed.
 End FromAssemble.
 
-(* ---------- single pass ---------- *)
-Theorem bw_write_decodes fp o sizes inp bs strict inflate :
-  bw_write fp o sizes inp = Ok bs -> opts_ok o -> input_ok sizes inp -> Nlen bs < U64 ->
+(* ---------- the advertised buffer size fits u32 and covers every section ---------- *)
+Lemma max_len_lt B l : 0 < B -> Forall (fun s => Nlen (sd_bytes s) < B) l -> max_len l < B.
+Proof.
+  intros HB H. unfold max_len.
+  assert (G : forall l a, a < B -> Forall (fun x => x < B) l -> fold_left N.max l a < B).
+  { induction l0 as [|x l0 IH]; intros a Ha Hl; cbn [fold_left]; [exact Ha|]. inversion Hl; subst. apply IH; [lia|assumption]. }
+  apply G; [exact HB|]. rewrite Forall_map. exact H.
+Qed.
+
+Section Sizes.
+Variables (fp : fpmode) (o : opts) (sizes : list (name * N)) (inp : list item).
+Variables (ids : idmap) (outs : list chrom_out) (sum : summary) (data : list sdata) (bs : list N).
+Hypothesis Hcol : bw_collect fp o sizes inp = Ok (ids, outs, sum, data).
+Hypothesis Hopts : opts_ok o.
+Hypothesis Hinp : input_ok sizes inp.
+Hypothesis Hsize : Nlen bs < U64.
+
+Lemma data_sizes_u32 : Forall (fun s => Nlen (sd_bytes s) < W32) data.
+Proof.
+  rewrite (core_data _ _ _ _ _ _ _ _ bs Hcol Hopts Hsize).
+  pose proof (core_pieces_ok _ _ _ _ _ _ _ _ bs Hcol Hopts Hinp Hsize) as Hok.
+  rewrite Forall_map. eapply Forall_impl; [|exact Hok]. intros [id items] (Hne & Hl & _). cbn [fst snd] in *.
+  destruct items as [|f r]; [congruence|]. unfold psec, section_of. cbn [fst snd sd_bytes].
+  unfold Nlen in *. rewrite app_length, (C09Codec.values_length (f :: r)). unfold sec_hdr, u8, u16, u32.
+  rewrite !app_length, !enc_le_length. unfold U16, W32 in *. lia.
+Qed.
+
+Lemma level_sizes_u32 size : 1 <= size -> Forall (fun s => Nlen (sd_bytes s) < W32) (zsecs fp (level_rsecs fp o outs size)).
+Proof.
+  intros Hs. destruct (level_good fp o sizes inp ids outs sum data bs Hcol Hopts Hinp Hsize size Hs) as (G1 & _).
+  unfold zsecs. rewrite Forall_map. eapply Forall_impl; [|exact G1]. intros rs (_ & Hl & _).
+  rewrite zsec_bytes_len. destruct Hopts as (_ & Hi). unfold W32. lia.
+Qed.
+
+Lemma ubuf_u32 c zsizes : Forall (fun z => 1 <= z) zsizes ->
+  N.max (ubuf_of c data) (ubuf_of c (flat_map zl_secs (map (zl_of fp o outs) zsizes))) < W32.
+Proof.
+  intros Hz. unfold ubuf_of. destruct c; [|unfold W32; lia].
+  pose proof (max_len_lt W32 data ltac:(unfold W32; lia) data_sizes_u32) as H1.
+  assert (H2 : max_len (flat_map zl_secs (map (zl_of fp o outs) zsizes)) < W32).
+  { apply max_len_lt; [unfold W32; lia|]. apply Forall_forall. intros s Hs. apply in_flat_map in Hs as [zl [Hzl Hs]].
+    apply in_map_iff in Hzl as [z [<- Hzin]]. cbn [zl_of zl_secs] in Hs. rewrite Forall_forall in Hz.
+    pose proof (level_sizes_u32 z (Hz z Hzin)) as Hall. rewrite Forall_forall in Hall. exact (Hall s Hs). }
+  lia.
+Qed.
+
+(* every resolution whose level is among the computed ones fits the advertised size *)
+Lemma sizes_ok c zsizes u : Forall (fun z => 1 <= z < W32) zsizes ->
+  (c = true -> max_len (flat_map zl_secs (map (zl_of fp o outs) zsizes)) <= u) ->
+  Forall (size_ok c u (level_rsecs fp o outs)) zsizes.
+Proof.
+  intros Hz Hu. apply Forall_forall. intros z Hzin. rewrite Forall_forall in Hz. split; [exact (Hz z Hzin)|].
+  intros Ec. apply Forall_forall. intros rs Hrs. rewrite <- (zsec_bytes_len fp rs).
+  eapply N.le_trans; [|exact (Hu Ec)]. apply max_len_ge. apply in_flat_map. exists (zl_of fp o outs z).
+  split; [now apply in_map|]. cbn [zl_of zl_secs]. unfold zsecs. now apply in_map.
+Qed.
+End Sizes.
+
+(* ---------- single pass, blocks compressed or not ---------- *)
+Theorem bw_write_zc_decodes compress cz fp o sizes inp bs strict inflate :
+  bw_write_zc compress cz fp o sizes inp = Ok bs -> opts_ok o -> input_ok sizes inp -> Nlen bs < U64 ->
   Forall (fun c : name => c <> []) (map fst (runs inp)) ->
   (strict = true -> names_increasing (map fst (runs inp))) ->
   Forall (fun z => z < W32) (zoom_sizes_single o) ->
-  exists ids outs sum data kept,
+  (forall b, compress b <> []) -> (cz = true -> inflate_ok compress bs inflate) ->
+  exists ids outs sum data kept ubuf,
     bw_collect fp o sizes inp = Ok (ids, outs, sum, data)
-    /\ incl kept (zoom_sizes_single o) /\ inc_from 0 kept
-    /\ decode_gen strict bs inflate = Some (content_of fp o sizes ids outs sum kept).
+    /\ incl kept (zoom_sizes_single o) /\ inc_from 0 kept /\ (ubuf = 0 <-> cz = false)
+    /\ decode_gen strict bs inflate = Some (content_of fp o sizes ids outs sum ubuf kept).
 Proof.
-  intros H Hopts Hinp Hsize Hnames Hstrict Hu.
-  destruct (bw_write_inv fp o sizes inp bs H) as (ids & outs & sum & data & zooms & Hcol & Hz & Hasm).
-  destruct (assemble_inv _ _ _ _ _ _ _ _ _ _ _ _ _ Hasm) as [p HA].
-  { intros ds zp zb zh E. pose proof (single_zoom_bound fp o outs zooms Hz _ _ _ _ E). change (Nlen bw_pre) with 352. lia. }
-  change (zoom_levels_for fp o outs (zoom_sizes_single o)) with (build_levels fp o outs (zoom_sizes_single o)) in Hz.
+  intros H Hopts Hinp Hsize Hnames Hstrict Hu Hcne Hinfl. unfold bw_write_zc in H.
+  destruct (bw_collect fp o sizes inp) as [[[[ids outs] sum] data]| | |] eqn:Hcol; cbn [rbind] in H; try discriminate.
+  change (bw_zoom_levels fp o outs (zoom_sizes_single o)) with (build_levels fp o outs (zoom_sizes_single o)) in H.
+  destruct (build_levels fp o outs (zoom_sizes_single o)) as [zooms| | |] eqn:Hz; cbn [rbind] in H; try discriminate.
   pose proof (inc_from_pos _ _ (zoom_sizes_single_inc o)) as Hpos.
   pose proof (levels_built fp o outs bs Hopts Hsize _ _ Hpos Hz) as Ezooms.
-  pose proof HA as (_ & _ & Hzp & _). unfold single_zoom_part in Hzp. rewrite wf_pd in Hzp.
-  destruct (levels_increasing_single fp o outs _ _ zooms _ _ Hz Hzp) as [Hinc Hcap].
-  pose proof (asm_zooms _ _ _ _ _ _ _ _ _ _ _ _ _ _ HA) as Hat. cbv zeta in Hat. rewrite wf_pd in Hat.
-  assert (Hlaid : laid_out fp (map (chrom_view sizes) ids) bs (Nlen bs) inflate (level_rsecs fp o outs)
-                    (352 + Nlen (data_bytes data) + Nlen (fp_ct p) + Nlen (fp_ix p)) (fp_zbytes p) (fp_zhdrs p)).
-  { apply (loop_layout fp o (map (chrom_view sizes) ids) bs (Nlen bs) inflate eq_refl Hsize Hopts (level_rsecs fp o outs)
+  destruct (assemble_z_inv _ _ _ _ _ _ _ _ H) as (p & zu & Hzp & HA).
+  { intros ds zp zb zh zu E. destruct (write_zooms_loop o ds zp _ None 0) as [[b0 h0]| | |] eqn:Ew; cbn [rbind] in E; try discriminate.
+    apply Ok_inj in E. inversion E; subst. apply write_zooms_loop_len in Ew. rewrite map_length in Ew.
+    apply mapM_length in Hz. pose proof (zoom_sizes_single_len o). unfold Nlen. lia. }
+  cbv beta in Hzp.
+  destruct (write_zooms_loop o _ _ (map (zlevel compress cz) zooms) None 0) as [[zb0 zh0]| | |] eqn:Ew; cbn [rbind] in Hzp; try discriminate.
+  apply Ok_inj in Hzp. inversion Hzp as [[E1 E2 E3]]. subst zb0 zh0 zu. clear Hzp.
+  set (ubuf := N.max (ubuf_of cz data) (ubuf_of cz (flat_map zl_secs zooms))) in *.
+  assert (Hres : map zl_res (map (zlevel compress cz) zooms) = zoom_sizes_single o).
+  { rewrite map_map. cbn [zlevel zl_res]. exact (build_levels_res _ _ _ _ _ Hz). }
+  destruct (write_zooms_loop_inc o _ _ _ _ _ _ _ 0 ltac:(rewrite Hres; apply zoom_sizes_single_inc) Ew) as [Hinc Hcap].
+  rewrite map_length in Hcap. apply mapM_length in Hz. pose proof (zoom_sizes_single_len o) as Hl10.
+  pose proof (zasm_zooms _ _ _ _ _ _ _ _ HA) as Hat.
+  (* mode, bounds *)
+  assert (Hmode : blk_mode cz ubuf).
+  { unfold ubuf, ubuf_of. destruct cz; [right|left; split; [reflexivity|lia]]. split; [reflexivity|].
+    destruct (data_first_section fp o sizes inp ids outs sum data Hcol Hopts) as (s0 & Hs0 & Hl0).
+    pose proof (max_len_ge data s0 Hs0). lia. }
+  assert (Hub32 : ubuf < W32).
+  { unfold ubuf. rewrite Ezooms. exact (ubuf_u32 fp o sizes inp ids outs sum data bs Hcol Hopts Hinp Hsize cz _ Hpos). }
+  assert (Hinf : cz = true -> inflate_ok compress bs inflate /\ Forall (fun d => Nlen (sd_bytes d) <= ubuf) data).
+  { intros Ec. split; [exact (Hinfl Ec)|]. apply Forall_forall. intros d Hd. unfold ubuf, ubuf_of. rewrite Ec.
+    pose proof (max_len_ge data d Hd). lia. }
+  assert (Hsok : Forall (size_ok cz ubuf (level_rsecs fp o outs)) (zoom_sizes_single o)).
+  { apply (sizes_ok fp o outs cz).
+    - apply Forall_forall. intros z Hzin. rewrite Forall_forall in Hpos, Hu. split; [exact (Hpos z Hzin)|exact (Hu z Hzin)].
+    - intros Ec. rewrite <- Ezooms. unfold ubuf, ubuf_of. rewrite Ec. lia. }
+  assert (Hlaid : laid_out fp (map (chrom_view sizes) ids) bs (Nlen bs) inflate ubuf (level_rsecs fp o outs)
+                    (352 + Nlen (data_bytes (map (zsec compress cz) data)) + Nlen (fp_ct p) + Nlen (fp_ix p)) (fp_zbytes p) (fp_zhdrs p)).
+  { apply (loop_layout fp o (map (chrom_view sizes) ids) bs (Nlen bs) inflate compress cz ubuf eq_refl Hsize Hopts Hcne Hmode Hinfl
+             (level_rsecs fp o outs)
              (fun size Hs => level_good fp o sizes inp ids outs sum data bs Hcol Hopts Hinp Hsize size Hs)
-             (zoom_sizes_single o) (Nlen (data_bytes data)) _ None 0); [|rewrite Ezooms in Hzp; exact Hzp|exact Hat].
-    apply Forall_forall. intros z Hzin. rewrite Forall_forall in Hpos, Hu. split; [exact (Hpos z Hzin)|exact (Hu z Hzin)]. }
-  exists ids, outs, sum, data, (map zh_res (fp_zhdrs p)). split; [exact Hcol|]. split; [|split; [exact Hinc|]].
-  - pose proof (write_zooms_loop_incl o _ _ _ _ _ _ _ Hzp) as Hincl. rewrite (build_levels_res _ _ _ _ _ Hz) in Hincl. exact Hincl.
-  - apply (assembled_decodes fp o sizes inp ids outs sum data _ bs p strict inflate Hcol HA Hopts Hinp Hsize Hnames Hstrict Hlaid);
-      [unfold MAX_ZOOM_LEVELS in Hcap; exact Hcap|exact Hinc].
+             (zoom_sizes_single o) (Nlen (data_bytes (map (zsec compress cz) data))) _ None 0 _ _ Hsok); [|exact Hat].
+    rewrite Ezooms, map_map in Ew. exact Ew. }
+  exists ids, outs, sum, data, (map zh_res (fp_zhdrs p)), ubuf. split; [reflexivity|]. split; [|split; [exact Hinc|split]].
+  - pose proof (write_zooms_loop_incl o _ _ _ _ _ _ _ Ew) as Hincl. rewrite Hres in Hincl. exact Hincl.
+  - unfold ubuf, ubuf_of. destruct cz; [|split; [reflexivity|intros _; lia]]. split; [|discriminate]. intros E0. exfalso.
+    destruct Hmode as [[Ef _]|[_ Hp]]; [discriminate|]. unfold ubuf, ubuf_of in Hp. lia.
+  - apply (assembled_decodes fp o sizes inp ids outs sum data bs p strict inflate compress cz ubuf Hcol HA Hmode Hub32 Hcne Hinf Hopts Hinp Hsize Hnames Hstrict Hlaid);
+      [unfold Nlen; lia|exact Hinc].
 Qed.
 
-(* ---------- two passes ---------- *)
+(* ---------- two passes, blocks compressed or not ---------- *)
 Lemma insert_sorted_in y x : forall l, In y (insert_sorted x l) -> y = x \/ In y l.
 Proof.
   induction l as [|z l IH]; cbn [insert_sorted]; intros H.
@@ -146,6 +236,92 @@ Proof.
     apply take_while_in in Hz. cbn [fst] in *. apply N.leb_le in Hz. unfold W32. lia.
 Qed.
 
+Theorem bw_write_multipass_zc_decodes compress cz fp o sizes inp bs strict inflate :
+  bw_write_multipass_zc compress cz fp o sizes inp = Ok bs -> opts_ok o -> input_ok sizes inp -> Nlen bs < U64 ->
+  Forall (fun c : name => c <> []) (map fst (runs inp)) ->
+  (strict = true -> names_increasing (map fst (runs inp))) ->
+  manual_u32 o ->
+  (forall b, compress b <> []) -> (cz = true -> inflate_ok compress bs inflate) ->
+  exists ids outs sum data kept ubuf,
+    bw_collect fp o sizes inp = Ok (ids, outs, sum, data)
+    /\ inc_from 0 kept /\ (ubuf = 0 <-> cz = false)
+    /\ decode_gen strict bs inflate = Some (content_of fp o sizes ids outs sum ubuf kept).
+Proof.
+  intros H Hopts Hinp Hsize Hnames Hstrict Hu Hcne Hinfl. unfold bw_write_multipass_zc in H.
+  destruct (bw_collect fp o sizes inp) as [[[[ids outs] sum] data]| | |] eqn:Hcol; cbn [rbind] in H; try discriminate.
+  cbv zeta in H.
+  destruct (assemble_z_inv _ _ _ _ _ _ _ _ H) as (p & zu & Hzp & HA).
+  { intros ds zp zb zh zu E. cbv beta in E.
+    destruct (bw_zoom_levels fp o outs _) as [zooms| | |] eqn:Hz; cbn [rbind] in E; try discriminate.
+    destruct (write_zooms_two_pass o zp _) as [[b0 h0]| | |] eqn:Ew; cbn [rbind] in E; try discriminate.
+    apply Ok_inj in E. inversion E; subst. apply write_zooms_two_pass_len in Ew. rewrite map_length in Ew.
+    unfold bw_zoom_levels in Hz. apply mapM_length in Hz.
+    pose proof (zoom_sizes_two_pass_len o sum (total_zoom_counts outs) ds). unfold Nlen. lia. }
+  cbv beta in Hzp.
+  set (wd := map (zsec compress cz) data) in *.
+  set (zsizes := zoom_sizes_two_pass o sum (total_zoom_counts outs) (Nlen (data_bytes wd))) in *.
+  change (bw_zoom_levels fp o outs zsizes) with (build_levels fp o outs zsizes) in Hzp.
+  destruct (build_levels fp o outs zsizes) as [zooms| | |] eqn:Hz; cbn [rbind] in Hzp; try discriminate.
+  destruct (write_zooms_two_pass o _ (map (zlevel compress cz) zooms)) as [[zb0 zh0]| | |] eqn:Ew; cbn [rbind] in Hzp; try discriminate.
+  apply Ok_inj in Hzp. inversion Hzp as [[E1 E2 E3]]. subst zb0 zh0 zu. clear Hzp.
+  pose proof (inc_from_pos _ _ (zoom_sizes_two_pass_inc o sum outs (Nlen (data_bytes wd)))) as Hpos. fold zsizes in Hpos.
+  pose proof (levels_built fp o outs bs Hopts Hsize _ _ Hpos Hz) as Ezooms.
+  set (ubuf := N.max (ubuf_of cz data) (ubuf_of cz (flat_map zl_secs zooms))) in *.
+  pose proof (write_zooms_two_pass_res o _ _ _ _ Ew) as Hres. rewrite map_map in Hres. cbn [zlevel zl_res] in Hres.
+  change (map (fun x : BBIFile.zoom_level => zl_res x) zooms) with (map zl_res zooms) in Hres.
+  rewrite (build_levels_res _ _ _ _ _ Hz) in Hres.
+  assert (Hinc : inc_from 0 (map zh_res (fp_zhdrs p))) by (rewrite Hres; apply zoom_sizes_two_pass_inc).
+  assert (Hcap : Nlen (fp_zhdrs p) <= 10).
+  { pose proof (f_equal (@length _) Hres) as El. rewrite map_length in El.
+    pose proof (zoom_sizes_two_pass_len o sum (total_zoom_counts outs) (Nlen (data_bytes wd))). fold zsizes in H0. unfold Nlen. lia. }
+  pose proof (zasm_zooms _ _ _ _ _ _ _ _ HA) as Hat.
+  assert (Hmode : blk_mode cz ubuf).
+  { unfold ubuf, ubuf_of. destruct cz; [right|left; split; [reflexivity|lia]]. split; [reflexivity|].
+    destruct (data_first_section fp o sizes inp ids outs sum data Hcol Hopts) as (s0 & Hs0 & Hl0).
+    pose proof (max_len_ge data s0 Hs0). lia. }
+  assert (Hub32 : ubuf < W32).
+  { unfold ubuf. rewrite Ezooms. exact (ubuf_u32 fp o sizes inp ids outs sum data bs Hcol Hopts Hinp Hsize cz _ Hpos). }
+  assert (Hinf : cz = true -> inflate_ok compress bs inflate /\ Forall (fun d => Nlen (sd_bytes d) <= ubuf) data).
+  { intros Ec. split; [exact (Hinfl Ec)|]. apply Forall_forall. intros d Hd. unfold ubuf, ubuf_of. rewrite Ec.
+    pose proof (max_len_ge data d Hd). lia. }
+  assert (Hsok : Forall (size_ok cz ubuf (level_rsecs fp o outs)) zsizes).
+  { apply (sizes_ok fp o outs cz).
+    - pose proof (two_pass_sizes_u32 o sum (total_zoom_counts outs) (Nlen (data_bytes wd)) Hu) as Hall. fold zsizes in Hall.
+      apply Forall_forall. intros z Hzin. rewrite Forall_forall in Hpos, Hall. split; [exact (Hpos z Hzin)|exact (Hall z Hzin)].
+    - intros Ec. rewrite <- Ezooms. unfold ubuf, ubuf_of. rewrite Ec. lia. }
+  assert (Hlaid : laid_out fp (map (chrom_view sizes) ids) bs (Nlen bs) inflate ubuf (level_rsecs fp o outs)
+                    (352 + Nlen (data_bytes wd) + Nlen (fp_ct p) + Nlen (fp_ix p)) (fp_zbytes p) (fp_zhdrs p)).
+  { apply (two_pass_layout fp o (map (chrom_view sizes) ids) bs (Nlen bs) inflate compress cz ubuf eq_refl Hsize Hopts Hcne Hmode Hinfl
+             (level_rsecs fp o outs)
+             (fun size Hs => level_good fp o sizes inp ids outs sum data bs Hcol Hopts Hinp Hsize size Hs)
+             zsizes _ _ _ Hsok); [|exact Hat].
+    rewrite Ezooms, map_map in Ew. exact Ew. }
+  exists ids, outs, sum, data, (map zh_res (fp_zhdrs p)), ubuf. split; [reflexivity|]. split; [exact Hinc|split].
+  - unfold ubuf, ubuf_of. destruct cz; [|split; [reflexivity|intros _; lia]]. split; [|discriminate]. intros E0. exfalso.
+    destruct Hmode as [[Ef _]|[_ Hp]]; [discriminate|]. unfold ubuf, ubuf_of in Hp. lia.
+  - exact (assembled_decodes fp o sizes inp ids outs sum data bs p strict inflate compress cz ubuf Hcol HA Hmode Hub32 Hcne Hinf Hopts Hinp Hsize Hnames Hstrict Hlaid Hcap Hinc).
+Qed.
+
+(* ---------- the uncompressed writers of Model/BigWigWrite.v ---------- *)
+Definition pad1 (b : list N) : list N := 0 :: b.     (* any compressor: it is not called when blocks are raw *)
+
+Theorem bw_write_decodes fp o sizes inp bs strict inflate :
+  bw_write fp o sizes inp = Ok bs -> opts_ok o -> input_ok sizes inp -> Nlen bs < U64 ->
+  Forall (fun c : name => c <> []) (map fst (runs inp)) ->
+  (strict = true -> names_increasing (map fst (runs inp))) ->
+  Forall (fun z => z < W32) (zoom_sizes_single o) ->
+  exists ids outs sum data kept,
+    bw_collect fp o sizes inp = Ok (ids, outs, sum, data)
+    /\ incl kept (zoom_sizes_single o) /\ inc_from 0 kept
+    /\ decode_gen strict bs inflate = Some (content_of fp o sizes ids outs sum 0 kept).
+Proof.
+  intros H Hopts Hinp Hsize Hnames Hstrict Hu.
+  destruct (bw_write_zc_false pad1 fp o sizes inp) as [E _]. rewrite <- E in H.
+  destruct (bw_write_zc_decodes pad1 false fp o sizes inp bs strict inflate H Hopts Hinp Hsize Hnames Hstrict Hu
+              ltac:(discriminate) ltac:(discriminate)) as (ids & outs & sum & data & kept & ubuf & H1 & H2 & H3 & H4 & H5).
+  assert (ubuf = 0) by (now apply H4). subst ubuf. exists ids, outs, sum, data, kept. auto.
+Qed.
+
 Theorem bw_write_multipass_decodes fp o sizes inp bs strict inflate :
   bw_write_multipass fp o sizes inp = Ok bs -> opts_ok o -> input_ok sizes inp -> Nlen bs < U64 ->
   Forall (fun c : name => c <> []) (map fst (runs inp)) ->
@@ -154,30 +330,13 @@ Theorem bw_write_multipass_decodes fp o sizes inp bs strict inflate :
   exists ids outs sum data kept,
     bw_collect fp o sizes inp = Ok (ids, outs, sum, data)
     /\ inc_from 0 kept
-    /\ decode_gen strict bs inflate = Some (content_of fp o sizes ids outs sum kept).
+    /\ decode_gen strict bs inflate = Some (content_of fp o sizes ids outs sum 0 kept).
 Proof.
   intros H Hopts Hinp Hsize Hnames Hstrict Hu.
-  destruct (bw_write_multipass_inv fp o sizes inp bs H) as (ids & outs & sum & data & Hcol & Hasm).
-  destruct (assemble_inv _ _ _ _ _ _ _ _ _ _ _ _ _ Hasm) as [p HA].
-  { intros ds zp zb zh E. pose proof (multi_zoom_bound fp o outs sum _ _ _ _ E). change (Nlen bw_pre) with 352. lia. }
-  pose proof HA as (_ & _ & Hzp & _). unfold multi_zoom_part in Hzp. cbv zeta in Hzp. rewrite wf_pd in Hzp.
-  change (zoom_levels_for fp o outs) with (build_levels fp o outs) in Hzp.
-  set (zsizes := zoom_sizes_two_pass o sum (total_zoom_counts outs) (Nlen (data_bytes data))) in *.
-  destruct (build_levels fp o outs zsizes) as [zooms| | |] eqn:Hz; cbn [rbind] in Hzp; try discriminate.
-  pose proof (inc_from_pos _ _ (zoom_sizes_two_pass_inc o sum outs (Nlen (data_bytes data)))) as Hpos. fold zsizes in Hpos.
-  pose proof (levels_built fp o outs bs Hopts Hsize _ _ Hpos Hz) as Ezooms.
-  destruct (levels_increasing_two_pass fp o outs sum _ _ zooms _ _ Hz Hzp) as (_ & Hinc & Hcap).
-  pose proof (asm_zooms _ _ _ _ _ _ _ _ _ _ _ _ _ _ HA) as Hat. cbv zeta in Hat. rewrite wf_pd in Hat.
-  assert (Hlaid : laid_out fp (map (chrom_view sizes) ids) bs (Nlen bs) inflate (level_rsecs fp o outs)
-                    (352 + Nlen (data_bytes data) + Nlen (fp_ct p) + Nlen (fp_ix p)) (fp_zbytes p) (fp_zhdrs p)).
-  { apply (two_pass_layout fp o (map (chrom_view sizes) ids) bs (Nlen bs) inflate eq_refl Hsize Hopts (level_rsecs fp o outs)
-             (fun size Hs => level_good fp o sizes inp ids outs sum data bs Hcol Hopts Hinp Hsize size Hs) zsizes);
-      [|rewrite Ezooms in Hzp; exact Hzp|exact Hat].
-    pose proof (two_pass_sizes_u32 o sum (total_zoom_counts outs) (Nlen (data_bytes data)) Hu) as Hall. fold zsizes in Hall.
-    apply Forall_forall. intros z Hzin. rewrite Forall_forall in Hpos, Hall. split; [exact (Hpos z Hzin)|exact (Hall z Hzin)]. }
-  exists ids, outs, sum, data, (map zh_res (fp_zhdrs p)). split; [exact Hcol|]. split; [exact Hinc|].
-  apply (assembled_decodes fp o sizes inp ids outs sum data _ bs p strict inflate Hcol HA Hopts Hinp Hsize Hnames Hstrict Hlaid);
-    [unfold MAX_ZOOM_LEVELS in Hcap; exact Hcap|exact Hinc].
+  destruct (bw_write_zc_false pad1 fp o sizes inp) as [_ E]. rewrite <- E in H.
+  destruct (bw_write_multipass_zc_decodes pad1 false fp o sizes inp bs strict inflate H Hopts Hinp Hsize Hnames Hstrict Hu
+              ltac:(discriminate) ltac:(discriminate)) as (ids & outs & sum & data & kept & ubuf & H1 & H3 & H4 & H5).
+  assert (ubuf = 0) by (now apply H4). subst ubuf. exists ids, outs, sum, data, kept. auto.
 Qed.
 
 (* ---------- the decoded records are exactly the input records; the summary is the folded one ---------- *)
